@@ -348,7 +348,6 @@ class Wcs(Relation):
     def check(self, sp, ctx):
         from regions import PixCoord
         w = sp['wcs']
-        wcs = S.build_wcs(w)
         if w.get('example'):
             cr = [180.0, 90.0]      # Galactic Aitoff, 1 deg/pixel, 360x180
             lim = 40.0
@@ -366,6 +365,12 @@ class Wcs(Relation):
         else:
             p = PixCoord(xs[:4].reshape(2, 2), ys[:4].reshape(2, 2))
         o, m = sp['origin'], sp['mode']
+        # (a WCS object with a past converts these very coordinates in its
+        # earlier state before it is edited in place)
+        wcs = S.build_wcs(w, warm=lambda x: PixCoord.from_sky(
+            p.to_sky(x, origin=o, mode=m), x, origin=o, mode=m))
+        if w.get('past'):
+            ctx.label('wcs:edited-in-place')
         sky = p.to_sky(wcs, origin=o, mode=m)
         back = PixCoord.from_sky(sky, wcs, origin=o, mode=m)
         ctx.label('origin:%d' % o, 'mode:' + m, 'layout:' + sp['layout'],
